@@ -215,8 +215,9 @@ def killed(ctx):
             elif e.kind == "scan_exit":
                 stack.pop()
             elif e.kind == "store" and len(e.data[1]) == 1 and e.data[1][0].op == "const" and \
-                    e.data[1][0].args[0] == "n_killed_walkers" and e.data[3] and \
-                    m_binop(strip_wrappers(e.data[2]), "+") is not None and enclosing is None:
+                    e.data[1][0].args[0] == "n_killed_walkers" and \
+                    m_binop(strip_wrappers(e.data[2]), "+") is not None and enclosing is None and any(
+                        strip_wrappers(x_) is strip_wrappers(e.data[4]) for x_ in m_binop(strip_wrappers(e.data[2]), "+")):
                 enclosing = [show(x, maxdepth=2) for x in stack]
                 added = e.data[2]
         if enclosing is None:
@@ -244,7 +245,10 @@ def killed(ctx):
         m = m_binop(strip_wrappers(added), "+")
         inc_ok = False
         if m is not None:
-            step_ = strip_wrappers(m[1])
+            # the increment is the operand that is not the previous counter value
+            prev_ = [x_ for x_ in m if any(y.op == "getitem" and y.args[1].op == "const" and
+                                           y.args[1].args[0] == "n_killed_walkers" for y in [strip_wrappers(x_)])]
+            step_ = strip_wrappers(m[0] if prev_ and strip_wrappers(m[1]) is strip_wrappers(prev_[0]) else m[1])
             inc = m_binop(step_, "-")
             if inc is not None:
                 a, b = inc
